@@ -684,4 +684,235 @@ theorem extract_long_rtt0 (mask : MaskFn) (env : Env) (isServer : Bool) (guessed
               simp only [g6, m6, if_false, eP, eS, hlen, drop6, List.map_cons, List.map_nil, ofPkt, Pkt.tokenLen, Pkt.packetLen]
               simp [hpn, hlb]
 
+set_option maxHeartbeats 1000000 in
+theorem extract_long_initial (mask : MaskFn) (env : Env) (isServer : Bool) (guessed : Bytes) (ts : Nat) (fb a b c e dl : UInt8)
+    (r : Bytes) (keys : Dict (List Nat) Bytes) (cs : Option Bytes)
+    (hk : ∀ n, keys (keyName n) = env.keys n) (hc : env.chacha = decide (cs = some [0x13, 0x03]))
+    (hz : Bytes.beNat (fb :: a :: b :: c :: e :: dl :: r) ≠ 0) (hs : isLong fb = true)
+    (hver : ¬ [a, b, c, e] = [0, 0, 0, 0]) (hpt : packetType fb = .initial) :
+    Gen.Py.extract_quic_packet (maskE mask) isServer guessed keys cs (fb :: a :: b :: c :: e :: dl :: r) ts =
+      .ok ((extract mask env isServer guessed ts (fb :: a :: b :: c :: e :: dl :: r)).pkts.map ofPkt)
+        { tls_data := (extract mask env isServer guessed ts (fb :: a :: b :: c :: e :: dl :: r)).rest } := by
+  have kSI := hk .serverInitial; have kCI := hk .clientInitial
+  simp only [keyName] at kSI kCI
+  have S0 : Bytes.slice (fb :: a :: b :: c :: e :: dl :: r) 1 5 = [a, b, c, e] := by simp [Bytes.slice]
+  have S1 : Bytes.slice (fb :: a :: b :: c :: e :: dl :: r) (6 + dl.toNat) (7 + dl.toNat) = List.take 1 (List.drop dl.toNat r) := by
+    rw [seven, slice6]; congr 1; omega
+  have hdl : dl.toNat < 256 := by simpa using dl.toNat_lt
+  have t0 : ¬ List.length r + 6 < 6 := by omega
+  cases isServer <;> long_start hz hs hver hpt
+  all_goals
+    simp only [extractLong, protectedTail, need, bind, Except.bind, Dissect.ofOpt, slice_add, hpt, kSI, kCI, hc,
+      remove_header_protection_eq_model]
+    unpack_norm
+    simp only [S0, S1, hver, Nat.add_assoc, Nat.reduceAdd, Nat.add_zero, drop6, drop7, List.drop_drop, List.drop_zero, if_true, if_false,
+      decide_true, t0, hdl]
+    by_cases hA : List.length r < dl.toNat
+    · have g1 : List.length r + 6 < 1 + (4 + (1 + dl.toNat)) := by omega
+      have m1 : List.length r + 6 < 6 + dl.toNat := by omega
+      simp only [g1, m1, if_true]; simp
+    have g1 : ¬ List.length r + 6 < 1 + (4 + (1 + dl.toNat)) := by omega
+    have m1 : ¬ List.length r + 6 < 6 + dl.toNat := by omega
+    simp only [g1, m1, if_false]
+    by_cases hB : List.length r < dl.toNat + 1
+    · have g2 : List.length r + 6 < 1 + (4 + (1 + (dl.toNat + 1))) := by omega
+      have m2 : List.length r + 6 < 7 + dl.toNat := by omega
+      simp only [g2, m2, if_true]; simp
+    have g2 : ¬ List.length r + 6 < 1 + (4 + (1 + (dl.toNat + 1))) := by omega
+    have m2 : ¬ List.length r + 6 < 7 + dl.toNat := by omega
+    simp only [g2, m2, if_false]
+    cases hv : decodeVarint (List.take 1 (List.drop dl.toNat r)) with
+    | none => simp
+    | some v =>
+      have hv64 := decodeVarint_take1 _ _ hv
+      have hv256 : v < 256 := by omega
+      have hbv : (UInt8.ofNat v).toNat = v := by
+        simp only [UInt8.toNat_ofNat']; omega
+      simp only [hv256, if_true]
+      by_cases hC : List.length r < dl.toNat + 1 + v
+      · have g3 : List.length r + 6 < 1 + (4 + (1 + (dl.toNat + (1 + v)))) := by omega
+        have m3 : List.length r + 6 < 7 + (dl.toNat + v) := by omega
+        simp only [g3, m3, if_true]; simp
+      have g3 : ¬ List.length r + 6 < 1 + (4 + (1 + (dl.toNat + (1 + v)))) := by omega
+      have m3 : ¬ List.length r + 6 < 7 + (dl.toNat + v) := by omega
+      have L1 : (List.take dl.toNat r).length = dl.toNat := by rw [List.length_take]; omega
+      have L2 : (List.take v (List.drop (1 + dl.toNat) r)).length = v := by rw [List.length_take, List.length_drop]; omega
+      have L2' : (List.take v (List.drop (dl.toNat + 1) r)).length = v := by rw [List.length_take, List.length_drop]; omega
+      have eD : List.drop (1 + (dl.toNat + v)) r = List.drop (dl.toNat + (1 + v)) r := by congr 1; omega
+      simp only [g3, m3, if_false, L1, L2, L2', hbv, eD]
+      by_cases hD : List.length r < dl.toNat + 1 + v + 1
+      · have g4 : List.length r + 6 < 1 + (4 + (1 + (dl.toNat + (1 + (v + 1))))) := by omega
+        have m4 : List.length r + 6 < 7 + (dl.toNat + (v + 1)) := by omega
+        simp only [g4, m4, if_true]; simp
+      have g4 : ¬ List.length r + 6 < 1 + (4 + (1 + (dl.toNat + (1 + (v + 1))))) := by omega
+      have m4 : ¬ List.length r + 6 < 7 + (dl.toNat + (v + 1)) := by omega
+      simp only [g4, m4, if_false]
+      cases htll : getVarintLength (List.take 1 (List.drop (dl.toNat + (1 + v)) r)) with
+      | none => simp
+      | some tll =>
+        simp only []
+        by_cases hE : List.length r < dl.toNat + 1 + v + tll
+        · have g5 : List.length r + 6 < 1 + (4 + (1 + (dl.toNat + (1 + (v + tll))))) := by omega
+          have m5 : List.length r + 6 < 7 + (dl.toNat + (v + tll)) := by omega
+          simp only [g5, m5, if_true]; simp
+        have g5 : ¬ List.length r + 6 < 1 + (4 + (1 + (dl.toNat + (1 + (v + tll))))) := by omega
+        have m5 : ¬ List.length r + 6 < 7 + (dl.toNat + (v + tll)) := by omega
+        simp only [g5, m5, if_false]
+        cases htl : decodeVarint (List.take tll (List.drop (dl.toNat + (1 + v)) r)) with
+        | none => simp
+        | some tl =>
+          simp only []
+          by_cases hT : List.length r < dl.toNat + 1 + v + tll + tl
+          · have g7 : List.length r + 6 < 1 + (4 + (1 + (dl.toNat + (1 + (v + (tll + tl)))))) := by omega
+            have m7 : List.length r + 6 < 7 + (dl.toNat + (v + (tll + tl))) := by omega
+            simp only [g7, m7, if_true]; simp
+          have g7 : ¬ List.length r + 6 < 1 + (4 + (1 + (dl.toNat + (1 + (v + (tll + tl)))))) := by omega
+          have m7 : ¬ List.length r + 6 < 7 + (dl.toNat + (v + (tll + tl))) := by omega
+          simp only [g7, m7, if_false]
+          by_cases hT1 : List.length r < dl.toNat + 1 + v + tll + tl + 1
+          · have g8 : List.length r + 6 < 1 + (4 + (1 + (dl.toNat + (1 + (v + (tll + (tl + 1))))))) := by omega
+            have m8 : List.length r + 6 < 7 + (dl.toNat + (v + (tll + (tl + 1)))) := by omega
+            simp only [g8, m8, if_true]; simp
+          have g8 : ¬ List.length r + 6 < 1 + (4 + (1 + (dl.toNat + (1 + (v + (tll + (tl + 1))))))) := by omega
+          have m8 : ¬ List.length r + 6 < 7 + (dl.toNat + (v + (tll + (tl + 1)))) := by omega
+          have eD2 : List.drop (1 + (dl.toNat + (v + (tll + tl)))) r = List.drop (dl.toNat + (1 + (v + (tll + tl)))) r := by
+            congr 1; omega
+          simp only [g8, m8, if_false, eD2]
+          cases hpl : getVarintLength (List.take 1 (List.drop (dl.toNat + (1 + (v + (tll + tl)))) r)) with
+          | none => simp
+          | some pll =>
+            simp only []
+            by_cases hP : List.length r < dl.toNat + 1 + v + tll + tl + pll
+            · have g9 : List.length r + 6 < 1 + (4 + (1 + (dl.toNat + (1 + (v + (tll + (tl + pll))))))) := by omega
+              have m9 : List.length r + 6 < 7 + (dl.toNat + (v + (tll + (tl + pll)))) := by omega
+              simp only [g9, m9, if_true]; simp
+            have g9 : ¬ List.length r + 6 < 1 + (4 + (1 + (dl.toNat + (1 + (v + (tll + (tl + pll))))))) := by omega
+            have m9 : ¬ List.length r + 6 < 7 + (dl.toNat + (v + (tll + (tl + pll)))) := by omega
+            simp only [g9, m9, if_false]
+            cases hpn : decodeVarint (List.take pll (List.drop (dl.toNat + (1 + (v + (tll + tl)))) r)) with
+            | none => simp
+            | some plen =>
+              have hfit := varint_fits _ _ _ hpl hpn
+              have htb : toBytesE (plen : Int) (pll : Int) = .ok (Bytes.ofNatBE pll plen) := by
+                have := toBytesE_nat plen pll hfit
+                simpa using this
+              have eO : 7 + (dl.toNat + (v + (pll + (tll + tl)))) = 7 + (dl.toNat + (v + (tll + (tl + pll)))) := by omega
+              simp only [htb, tryE_ok, beNat_ofNatBE _ _ hfit, eO]
+              generalize env.keys _ = K
+              cases K with
+              | none => simp
+              | some key =>
+                simp only []
+                generalize removeHP mask true _ fb key _ _ _ = R
+                cases R with
+                | error er => simp [dErr_ne_fuel]
+                | ok w =>
+                  obtain ⟨fb', pn, l⟩ := w
+                  simp only []
+                  by_cases hF : plen < l
+                  · have hf : fOk (Fld.S ((plen : Int) - (l : Int))) = false := by
+                      simp only [fOk, decide_eq_false_iff_not]; omega
+                    simp only [hf, hF, Bool.false_eq_true, if_false, if_true]; simp
+                  have hf : fOk (Fld.S ((plen : Int) - (l : Int))) = true := by
+                    simp only [fOk, decide_eq_true_eq]; omega
+                  have hn : fNat (Fld.S ((plen : Int) - (l : Int))) = plen - l := by simp only [fNat]; omega
+                  have ht : ((plen : Int) - (l : Int)).toNat = plen - l := by omega
+                  simp only [hf, hn, ht, hF, if_true, if_false]
+                  by_cases hG : List.length r < dl.toNat + 1 + v + tll + tl + pll + l + (plen - l)
+                  · have g6 : List.length r + 6 < 1 + (4 + (1 + (dl.toNat + (1 + (v + (tll + (tl + (pll + (l + (plen - l)))))))))) := by omega
+                    have m6 : List.length r + 6 < 7 + (dl.toNat + (v + (tll + (tl + (pll + (l + (plen - l))))))) := by omega
+                    simp only [g6, m6, if_true]; simp
+                  have g6 : ¬ List.length r + 6 < 1 + (4 + (1 + (dl.toNat + (1 + (v + (tll + (tl + (pll + (l + (plen - l)))))))))) := by omega
+                  have m6 : ¬ List.length r + 6 < 7 + (dl.toNat + (v + (tll + (tl + (pll + (l + (plen - l))))))) := by omega
+                  have eP : List.drop (1 + (dl.toNat + (v + (tll + (tl + (pll + l)))))) r =
+                      List.drop (dl.toNat + (1 + (v + (tll + (tl + (pll + l)))))) r := by congr 1; omega
+                  have eS : List.drop (dl.toNat + 1) r = List.drop (1 + dl.toNat) r := by congr 1; omega
+                  have eT : List.drop (1 + (dl.toNat + (v + tll))) r = List.drop (dl.toNat + (1 + (v + tll))) r := by congr 1; omega
+                  have hlen : (List.take (plen - l) (List.drop (dl.toNat + (1 + (v + (tll + (tl + (pll + l)))))) r)).length = plen - l := by
+                    rw [List.length_take, List.length_drop]; omega
+                  have hlb : (List.take pll (List.drop (dl.toNat + (1 + (v + (tll + tl)))) r)).length = pll := by
+                    rw [List.length_take, List.length_drop]; omega
+                  simp only [g6, m6, if_false, eP, eS, eT, hlen, drop6, List.map_cons, List.map_nil, ofPkt, Pkt.tokenLen, Pkt.packetLen]
+                  simp [hpn, hlb, htl]
+
+theorem packetType_cases (fb : UInt8) :
+    packetType fb = .initial ∨ packetType fb = .rtt0 ∨ packetType fb = .handshake ∨ packetType fb = .retry := by
+  revert fb; apply forall_u8; decide +kernel
+
+/-- a long-header datagram of fewer than six bytes: the first `struct.unpack_from` fails, everything is dropped -/
+theorem extract_long_tiny (mask : MaskFn) (env : Env) (isServer : Bool) (guessed : Bytes) (ts : Nat) (fb : UInt8) (r : Bytes)
+    (keys : Dict (List Nat) Bytes) (cs : Option Bytes)
+    (hz : Bytes.beNat (fb :: r) ≠ 0) (hs : isLong fb = true) (hlen : r.length < 5) :
+    Gen.Py.extract_quic_packet (maskE mask) isServer guessed keys cs (fb :: r) ts =
+      .ok ((extract mask env isServer guessed ts (fb :: r)).pkts.map ofPkt)
+        { tls_data := (extract mask env isServer guessed ts (fb :: r)).rest } := by
+  unfold Gen.Py.extract_quic_packet extract
+  simp only [get_header_type_eq_model, onFirst, hs, hz, tryE_ok, Bool.false_eq_true, if_false, decide_false, reduceCtorEq, decide_true, if_true]
+  rw [try_unpack]
+  have h6 : (fb :: r).length < ([Fld.B, Fld.S 4, Fld.B].map fNat).sum := by
+    simp only [List.length_cons, List.map_cons, List.map_nil, List.sum_cons, List.sum_nil, fNat_B, fNat_4]; omega
+  have hall : ([Fld.B, Fld.S (4 : Int), Fld.B] ++ []).all fOk = true := by decide
+  simp only [List.append_nil] at hall ⊢
+  simp only [hall, h6, if_true, decide_true]
+  simp only [extractLong, need, bind, Except.bind]
+  have : List.length r + 1 < 6 := by omega
+  simp only [List.length_cons, this, if_true]
+  simp
+
+set_option maxRecDepth 4096 in
+theorem extract_nil (mask : MaskFn) (env : Env) (isServer : Bool) (guessed : Bytes) (ts : Nat)
+    (keys : Dict (List Nat) Bytes) (cs : Option Bytes) :
+    Gen.Py.extract_quic_packet (maskE mask) isServer guessed keys cs [] ts =
+      .ok ((extract mask env isServer guessed ts []).pkts.map ofPkt) { tls_data := (extract mask env isServer guessed ts []).rest } := by
+  have h : Gen.Py.get_header_type [] = .error .index := by rw [get_header_type_eq_model]; rfl
+  unfold Gen.Py.extract_quic_packet extract
+  simp only [h, tryE_error]
+  simp
+
+set_option maxRecDepth 4096 in
+theorem extract_zeros (mask : MaskFn) (env : Env) (isServer : Bool) (guessed : Bytes) (ts : Nat) (fb : UInt8) (r : Bytes)
+    (keys : Dict (List Nat) Bytes) (cs : Option Bytes) (hz : Bytes.beNat (fb :: r) = 0) :
+    Gen.Py.extract_quic_packet (maskE mask) isServer guessed keys cs (fb :: r) ts =
+      .ok ((extract mask env isServer guessed ts (fb :: r)).pkts.map ofPkt)
+        { tls_data := (extract mask env isServer guessed ts (fb :: r)).rest } := by
+  have h : Gen.Py.get_header_type (fb :: r) = .ok (if isLong fb then .long else .short) := by rw [get_header_type_eq_model]; rfl
+  unfold Gen.Py.extract_quic_packet extract
+  simp only [h, tryE_ok, hz]
+  rw [if_pos (by decide)]
+  simp
+
+/-- `extract_quic_packet(in_packet, isserver, guessed_dcid, keys, ciphersuite)` on `in_packet.tls_data = d`, the whole
+    function: with the two mask primitives as the model's `mask` parameter and `keys` holding what the model's `env.keys`
+    holds, the packets constructed are — keyword argument by keyword argument — the model's `extract … d`, the datagram
+    remainder left in `in_packet.tls_data` is the model's `rest`, and no exception leaves the function. -/
+theorem extract_quic_packet_eq_model (mask : MaskFn) (env : Env) (isServer : Bool) (guessed : Bytes) (ts : Nat) (d : Bytes)
+    (keys : Dict (List Nat) Bytes) (cs : Option Bytes)
+    (hk : ∀ n, keys (keyName n) = env.keys n) (hc : env.chacha = decide (cs = some [0x13, 0x03])) :
+    Gen.Py.extract_quic_packet (maskE mask) isServer guessed keys cs d ts =
+      .ok ((extract mask env isServer guessed ts d).pkts.map ofPkt) { tls_data := (extract mask env isServer guessed ts d).rest } := by
+  cases d with
+  | nil =>
+    exact extract_nil mask env isServer guessed ts keys cs
+  | cons fb r =>
+    by_cases hz : Bytes.beNat (fb :: r) = 0
+    · exact extract_zeros mask env isServer guessed ts fb r keys cs hz
+    by_cases hs : isLong fb = true
+    · rcases r with _ | ⟨a, _ | ⟨b, _ | ⟨c, _ | ⟨e, _ | ⟨dl, r'⟩⟩⟩⟩⟩
+      · exact extract_long_tiny mask env isServer guessed ts fb _ keys cs hz hs (by simp)
+      · exact extract_long_tiny mask env isServer guessed ts fb _ keys cs hz hs (by simp)
+      · exact extract_long_tiny mask env isServer guessed ts fb _ keys cs hz hs (by simp)
+      · exact extract_long_tiny mask env isServer guessed ts fb _ keys cs hz hs (by simp)
+      · exact extract_long_tiny mask env isServer guessed ts fb _ keys cs hz hs (by simp)
+      · by_cases hver : [a, b, c, e] = [0, 0, 0, 0]
+        · simp only [List.cons.injEq, and_true] at hver
+          obtain ⟨rfl, rfl, rfl, rfl⟩ := hver
+          exact extract_long_vneg mask env isServer guessed ts fb dl r' keys cs hz hs
+        · rcases packetType_cases fb with hpt | hpt | hpt | hpt
+          · exact extract_long_initial mask env isServer guessed ts fb a b c e dl r' keys cs hk hc hz hs hver hpt
+          · exact extract_long_rtt0 mask env isServer guessed ts fb a b c e dl r' keys cs hk hc hz hs hver hpt
+          · exact extract_long_handshake mask env isServer guessed ts fb a b c e dl r' keys cs hk hc hz hs hver hpt
+          · exact extract_long_retry mask env isServer guessed ts fb a b c e dl r' keys cs hz hs hver hpt
+    · have hs' : isLong fb = false := by simpa using hs
+      exact extract_short mask env isServer guessed ts fb r keys cs hk hc hz hs'
+
 end TLX.Props.Translated
